@@ -269,6 +269,19 @@ def run(ctx, progs):
                     f_none = any(r[0] == 'discr' and r[2] == 0 and the_sum(r[1]) is not None for r in outcomes.facts_of(b, none[0]))
                     ok = sm is not None and not_ok and f_some and f_none
                     detail += f"; value = sum & !mask [{sm is not None and not_ok}], Some iff the checked sum exists [{f_some and f_none}]"
+                elif is_call(v, 'Address::unchecked_align_up') and is_param(v[2][0], 1) and is_param(v[2][1], 2):
+                    # the same function spelt with its guard first: `(raw_value(self) <= !mask).then(|| self.unchecked_align_up(p))`.
+                    # self + mask fits exactly when raw <= MAX - mask = !mask, and unchecked_align_up (own rule R19.3.unchecked_align_up)
+                    # is (self + mask) & !mask: Some under `<=` (non-strict: the highest aligned address is representable), None under `>`
+                    def bound(r, op):
+                        if r[0] != 'cmp' or r[1] != op:
+                            return False
+                        rhs = deep_strip(r[3])
+                        return rawv(r[2], 1) and is_call(rhs, 'Not::not') and mask_term(rhs[2][0])
+                    f_some = any(bound(r, 'Le') for r in outcomes.facts_of(b, some[0]))
+                    f_none = any(bound(r, 'Gt') for r in outcomes.facts_of(b, none[0]))
+                    ok = f_some and f_none
+                    detail += f"; value = unchecked_align_up(self, p) [True], Some iff raw_value(self) <= !(p - 1) [{f_some and f_none}]"
             # asserts: p != 0 and p & mask == 0 dominate the checked_add
             n_assert = sum(1 for c in b.calls() if c.callee and c.callee.startswith('core::panicking::assert_failed'))
             ctx.ob("R19.3.asserts", "address::Address::checked_align_up", n_assert >= 2, b.where(),
